@@ -12,12 +12,15 @@ import (
 	"crypto"
 	"crypto/ecdsa"
 	"crypto/ed25519"
+	"crypto/elliptic"
+	crand "crypto/rand"
 	"crypto/rsa"
 	b64 "encoding/base64"
 	"encoding/hex"
 	"encoding/json"
 	"errors"
 	"fmt"
+	nutsJwx "github.com/nuts-foundation/nuts-node/crypto/jwx"
 	"golang.org/x/crypto/ssh"
 	"io"
 	"math/rand"
@@ -761,7 +764,7 @@ func TestVerifC17(t *testing.T) {
 	defer done()
 	only := vReplaySet()
 
-	signers := []*vKey{vNewKey("p256", "alice"), vNewKey("ed", "bob"), vNewKey("rsa", "carol"), vNewKey("p384", "dave")}
+	signers := []*vKey{vNewKey("p256", "alice"), vNewKey("ed", "bob"), vNewKey("rsa", "carol"), vNewKey("p384", "dave"), vNewKey("p521", "erin")}
 	attackers := []*vKey{vNewKey("p256", "mallory-ec"), vNewKey("ed", "mallory-ed")}
 	// the protocol's key source: kid -> public key of the parties (never the attacker's)
 	source := vResolver{}
@@ -777,11 +780,66 @@ func TestVerifC17(t *testing.T) {
 	now := time.Now()
 
 	// bearer-token consumer needs ssh style kids
-	apiKeys := []*vKey{vNewKey("p256", "alice@verif"), vNewKey("ed", "bob@verif"), vNewKey("rsa", "carol@verif"), vNewKey("p384", "dave@verif")}
+	apiKeys := []*vKey{vNewKey("p256", "alice@verif"), vNewKey("ed", "bob@verif"), vNewKey("rsa", "carol@verif"), vNewKey("p384", "dave@verif"), vNewKey("p521", "erin@verif")}
 	apiAttackers := []*vKey{vNewKey("p256", "mallory-ec@verif"), vNewKey("ed", "mallory-ed@verif")}
 	mw := vNewMW(t, apiKeys, "verif-aud")
 
 	want := func(c, name string) bool { return len(only) == 0 || only[c+"|"+name] }
+
+	// ---------------- crypto/jwx.AlgorithmFitsKey itself: every key shape x every algorithm name, against the model's function
+	algfitsWanted := len(only) == 0
+	for k := range only {
+		if strings.HasPrefix(k, "|") { // a replay line of an `algfits` op (no consumer)
+			algfitsWanted = true
+		}
+	}
+	if algfitsWanted {
+		type shaped struct {
+			name  string
+			key   interface{}
+			shape map[string]interface{}
+		}
+		var shapes []shaped
+		for _, c := range []elliptic.Curve{elliptic.P224(), elliptic.P256(), elliptic.P384(), elliptic.P521()} {
+			k, err := ecdsa.GenerateKey(c, crand.Reader)
+			if err != nil {
+				t.Fatal(err)
+			}
+			sh := map[string]interface{}{"kind": "ecdsa", "curve": c.Params().Name}
+			shapes = append(shapes, shaped{"ecdsa-ptr-" + c.Params().Name, &k.PublicKey, sh}, shaped{"ecdsa-value-" + c.Params().Name, k.PublicKey, sh},
+				shaped{"ecdsa-private-" + c.Params().Name, k, sh})
+			if c.Params().Name != "P-224" { // jwk has no P-224
+				pj, _ := jwk.FromRaw(&k.PublicKey)
+				sj, _ := jwk.FromRaw(k)
+				shapes = append(shapes, shaped{"jwk-ec-public-" + c.Params().Name, pj, sh}, shaped{"jwk-ec-private-" + c.Params().Name, sj, sh})
+			}
+		}
+		edPub, _, _ := ed25519.GenerateKey(crand.Reader)
+		for _, n := range []int{32, 31, 0, 33} {
+			var k ed25519.PublicKey
+			if n <= 32 {
+				k = edPub[:n]
+			} else {
+				k = append(append(ed25519.PublicKey{}, edPub...), 0)
+			}
+			sh := map[string]interface{}{"kind": "ed25519", "len": n}
+			kk := k
+			shapes = append(shapes, shaped{"ed25519-" + strconv.Itoa(n), k, sh}, shaped{"ed25519-ptr-" + strconv.Itoa(n), &kk, sh})
+		}
+		okp, _ := jwk.FromRaw(edPub)
+		shapes = append(shapes, shaped{"jwk-okp-ed25519", okp, map[string]interface{}{"kind": "ed25519", "len": 32}})
+		rk, _ := rsa.GenerateKey(crand.Reader, 1024)
+		other := map[string]interface{}{"kind": "other"}
+		shapes = append(shapes, shaped{"rsa", &rk.PublicKey, other}, shaped{"bytes", []byte("secret"), other}, shaped{"nil", nil, other}, shaped{"string", "key", other})
+		for _, sh := range shapes {
+			for _, alg := range []string{"ES256", "ES384", "ES512", "ES256K", "EdDSA", "PS256", "PS384", "PS512", "RS256", "RS512", "HS256", "none", ""} {
+				res := vRecover(func() string {
+					return strconv.FormatBool(nutsJwx.AlgorithmFitsKey(jwa.SignatureAlgorithm(alg), sh.key))
+				})
+				out.emit(map[string]interface{}{"op": "algfits", "name": sh.name, "alg": alg, "shape": sh.shape}, res)
+			}
+		}
+	}
 
 	for round := 0; round < rounds; round++ {
 		for ki, k := range signers {
@@ -943,7 +1001,7 @@ func TestVerifC17(t *testing.T) {
 				a := mw.analyse(cred)
 				info, _ := vAnalyse(cred)
 				verd := map[string]interface{}{"nfields": len(f), "credlen": len(cred), "verifies": a.Verifies, "claims": a.Claims,
-					"keys": []string{apiKeys[0].name, apiKeys[1].name, apiKeys[2].name, apiKeys[3].name}, "aud": "verif-aud", "now": now.Unix()}
+					"keys": []string{apiKeys[0].name, apiKeys[1].name, apiKeys[2].name, apiKeys[3].name, apiKeys[4].name}, "aud": "verif-aud", "now": now.Unix()}
 				res := strings.SplitN(mw.run("Bearer "+v.Tok), " ", 2)[0]
 				if res == "granted" {
 					res = "accept"
